@@ -47,3 +47,10 @@ pub use crate::serde_2026::{
     deserialize_2026_from_stream, serialize_2026, serialize_2026_to_stream,
     serialized_length_serde_2026,
 };
+
+#[cfg(feature = "verif-hooks")]
+pub use de_br::node_from_stream_backrefs;
+#[cfg(feature = "verif-hooks")]
+pub use ser::{LimitedWriter, node_to_stream};
+#[cfg(feature = "verif-hooks")]
+pub use ser_br::node_to_stream_backrefs;
